@@ -822,7 +822,7 @@ func runNesting(sec *vh.Section, c nestCase, verbose bool) {
 	}
 	huge, hmsg := child(200000)
 	res.Dist(sec, "nesting200000/"+huge)
-	if huge != "answered" || !strings.Contains(hmsg, "true") || time.Since(t0) > 20*time.Second {
+	if huge != "answered" || !strings.Contains(hmsg, "true") || time.Since(t0) > 90*time.Second {
 		f := vh.SpecFailure{Section: "nesting", Kind: "fatal-stack-overflow", Input: nestCase{200000, c.MaxStackMB}, Impl: huge + ": " + hmsg + " after " + time.Since(t0).String(),
 			Spec: "refused with an error, quickly", What: "a statement with 200 000 nested parentheses is not refused quickly"}
 		if huge != "answered" {
@@ -864,7 +864,7 @@ func runNestingHole(sec *vh.Section, c holeCase, verbose bool) {
 		t0 := time.Now()
 		r2 := guarded(func() (string, error) { _, err := lql.ParseLql(big); return "", err })
 		res.Dist(sec, "nesting-hole/200000/"+r2.Kind)
-		if r2.Kind != "err" || time.Since(t0) > 2*time.Second {
+		if r2.Kind != "err" || time.Since(t0) > 10*time.Second {
 			res.SpecFail(vh.SpecFailure{Section: "nesting", Kind: "nesting-guard-bypassed", Input: holeCase{c.Prefix, 200000, c.MaxStackMB}, Impl: r2.Kind + " after " + time.Since(t0).String(),
 				Spec: "refused with an error, quickly", What: "a statement with 200 000 nested parentheses behind a tags token is not refused quickly"})
 		}
@@ -905,7 +905,7 @@ func firstLines(s string, n int) string {
 
 func sectionRobust(rng *vh.Rng) {
 	sec := res.Section("robust", "spec-search",
-		"ROBUSTNESS TEST, not a proof (participle, regexp, kvstring and strconv internals are not modelled): grammar-like generated LQL statements, expressions and sources, 1..3 byte-level mutations of them, parentheses / NOT chains nested to depth 2000, tag lines, KV strings, format strings ({msg}, {ts.format(..)}, {vars:..}, broken braces, multi-byte runes); accepted filters and formats are evaluated on four sample events; every call under recover with a 3 s deadline; oracle: a result or an error. Nesting depth of paren-only texts is also compared with the model's depth counter. non-trivial = accepted text, distinct by (kind, text)")
+		"ROBUSTNESS TEST, not a proof (participle, regexp, kvstring and strconv internals are not modelled): grammar-like generated LQL statements, expressions and sources, 1..3 byte-level mutations of them, parentheses / NOT chains nested to depth 2000, tag lines, KV strings, format strings ({msg}, {ts.format(..)}, {vars:..}, broken braces, multi-byte runes); accepted filters and formats are evaluated on four sample events; every call under recover with an 8 s deadline; oracle: a result or an error. Nesting depth of paren-only texts is also compared with the model's depth counter. non-trivial = accepted text, distinct by (kind, text)")
 	n := 2500
 	if args.Thorough {
 		n = 60000
@@ -1343,10 +1343,18 @@ func childE2E(in, logf, outf, dir string) {
 	// read-back: every acknowledged write to a rb=… partition must be served completely
 	srv.FlushWait()
 	for tags, n := range acked {
-		ctx, cancel := context.WithTimeout(context.Background(), 10*time.Second)
 		var qr api.QueryResult
-		err := srv.Client.Query(ctx, &api.QueryRequest{Query: "select from " + tags + " limit 1000", Limit: 1000}, &qr)
-		cancel()
+		var err error
+		for t0 := time.Now(); time.Since(t0) < 8*time.Second; time.Sleep(25 * time.Millisecond) {
+			ctx, cancel := context.WithTimeout(context.Background(), 10*time.Second)
+			qr = api.QueryResult{}
+			err = srv.Client.Query(ctx, &api.QueryRequest{Query: "select from " + tags + " limit 1000", Limit: 1000}, &qr)
+			cancel()
+			if err != nil || qr.Err != nil || len(qr.Events) >= n {
+				break // an error is final; fewer events than acknowledged may just not be flushed yet
+			}
+			srv.FlushWait()
+		}
 		if err != nil || qr.Err != nil || len(qr.Events) != n {
 			out.Readback = append(out.Readback, fmt.Sprintf("%s: %d events acknowledged, query returned %d, err=%v operr=%v", tags, n, len(qr.Events), err, qr.Err))
 		}
@@ -1362,9 +1370,16 @@ func childE2E(in, logf, outf, dir string) {
 		finish()
 		os.Exit(4)
 	}
-	srv.FlushWait()
+	// readers only see flushed records: poll with a generous margin instead of trusting one flush period (loaded machines)
 	var qr api.QueryResult
-	err = srv.Client.Query(ctx, &api.QueryRequest{Query: "select from verif=alive limit 5", Limit: 5}, &qr)
+	for t0 := time.Now(); time.Since(t0) < 8*time.Second; time.Sleep(25 * time.Millisecond) {
+		srv.FlushWait()
+		qr = api.QueryResult{}
+		err = srv.Client.Query(ctx, &api.QueryRequest{Query: "select from verif=alive limit 5", Limit: 5}, &qr)
+		if err != nil || qr.Err != nil || len(qr.Events) >= 1 {
+			break
+		}
+	}
 	if err != nil || qr.Err != nil || len(qr.Events) != 1 || qr.Events[0].Message != "alive" {
 		out.Note = fmt.Sprintf("liveness query failed: %v %v %d events", err, qr.Err, len(qr.Events))
 		finish()
